@@ -321,6 +321,9 @@ func fmtSet(a []string) string { return "{" + strings.Join(a, ",") + "}" }
 
 // isMembershipFn checks that bool function f(list, elem) returns true only behind `list[i] == elem`.
 func (c *Ctx) isMembershipFn(f *ssa.Function) (bool, []string) {
+	if f != nil && isSlicesContains(f) {
+		return true, nil
+	}
 	if f == nil || f.Blocks == nil || len(f.Params) < 2 {
 		return false, []string{"not a 2-parameter function"}
 	}
@@ -348,4 +351,13 @@ func isRefLike(t types.Type) bool {
 		return true
 	}
 	return false
+}
+
+// isSlicesContains: the standard library's slices.Contains (any instantiation).
+func isSlicesContains(f *ssa.Function) bool {
+	o := f.Origin()
+	if o == nil {
+		o = f
+	}
+	return o.Pkg != nil && o.Pkg.Pkg.Path() == "slices" && o.Name() == "Contains"
 }
